@@ -63,21 +63,34 @@ package endpointf
 //@   let k13 = decIntK(src, q12, 13, false, 4, d0)
 //@   let q13 = (k13 == 0 ? decIntP(src, q12, 13, d0) : seekP(src, q12, 13, d0))
 //@   let ok13 = ok12 && (k13 == 0 || (k13 == 1 && (seekK(src, q12, 13, d0) == 2 || (seekK(src, q12, 13, d0) == 1 && seekCanon(src, q12, 13, d0)))))
-//@   opaque [C04] *
+//@   opaque [C04,C06] *
 //@   perreturn
 //@   ensures [C04] (ok1 && err == nil) ==> st.Host == (k1 == 0 ? decStrV(src, q0, 0, d0) : old(st.Host))
+//@   ensures [C06] (k1 == 2) ==> err != nil
 //@   ensures [C04] (ok2 && err == nil) ==> st.Port == (k2 == 0 ? decIntV(src, q1, 1, d0) : old(st.Port))
+//@   ensures [C06] (ok1 && k2 == 2) ==> err != nil
 //@   ensures [C04] (ok3 && err == nil) ==> st.Timeout == (k3 == 0 ? decIntV(src, q2, 2, d0) : old(st.Timeout))
+//@   ensures [C06] (ok2 && k3 == 2) ==> err != nil
 //@   ensures [C04] (ok4 && err == nil) ==> st.Istcp == (k4 == 0 ? decIntV(src, q3, 3, d0) : old(st.Istcp))
+//@   ensures [C06] (ok3 && k4 == 2) ==> err != nil
 //@   ensures [C04] (ok5 && err == nil) ==> st.Grid == (k5 == 0 ? decIntV(src, q4, 4, d0) : old(st.Grid))
+//@   ensures [C06] (ok4 && k5 == 2) ==> err != nil
 //@   ensures [C04] (ok6 && err == nil) ==> st.Groupworkid == (k6 == 0 ? decIntV(src, q5, 5, d0) : old(st.Groupworkid))
+//@   ensures [C06] (ok5 && k6 == 2) ==> err != nil
 //@   ensures [C04] (ok7 && err == nil) ==> st.Grouprealid == (k7 == 0 ? decIntV(src, q6, 6, d0) : old(st.Grouprealid))
+//@   ensures [C06] (ok6 && k7 == 2) ==> err != nil
 //@   ensures [C04] (ok8 && err == nil) ==> st.SetId == (k8 == 0 ? decStrV(src, q7, 7, d0) : old(st.SetId))
+//@   ensures [C06] (ok7 && k8 == 2) ==> err != nil
 //@   ensures [C04] (ok9 && err == nil) ==> st.Qos == (k9 == 0 ? decIntV(src, q8, 8, d0) : old(st.Qos))
+//@   ensures [C06] (ok8 && k9 == 2) ==> err != nil
 //@   ensures [C04] (ok10 && err == nil) ==> st.BakFlag == (k10 == 0 ? decIntV(src, q9, 9, d0) : old(st.BakFlag))
+//@   ensures [C06] (ok9 && k10 == 2) ==> err != nil
 //@   ensures [C04] (ok11 && err == nil) ==> st.Weight == (k11 == 0 ? decIntV(src, q10, 11, d0) : old(st.Weight))
+//@   ensures [C06] (ok10 && k11 == 2) ==> err != nil
 //@   ensures [C04] (ok12 && err == nil) ==> st.WeightType == (k12 == 0 ? decIntV(src, q11, 12, d0) : old(st.WeightType))
+//@   ensures [C06] (ok11 && k12 == 2) ==> err != nil
 //@   ensures [C04] (ok13 && err == nil) ==> st.AuthType == (k13 == 0 ? decIntV(src, q12, 13, d0) : old(st.AuthType))
+//@   ensures [C06] (ok12 && k13 == 2) ==> err != nil
 //@   ensures [C04] ok13 ==> (err == nil && readBuf.buf.i == q13)
 //@   safety [C05]
 //
@@ -112,4 +125,27 @@ package endpointf
 //@   perreturn
 //@   modifies buf.buf.bytes
 //@   ensures [C03] err == nil && buf.buf.bytes == pre
+//@   safety [C03]
+//
+//@ func (*EndpointF).WriteBlock
+//@   requires st != nil && validB(buf) && len(st.Host) < 4294967296 && len(st.SetId) < 4294967296
+//@   let e0 = buf.buf.bytes ++ head(StructBegin, tag)
+//@   let e1 = e0 ++ encString(0, st.Host)
+//@   let e2 = e1 ++ encInt32(1, st.Port)
+//@   let e3 = e2 ++ encInt32(2, st.Timeout)
+//@   let e4 = e3 ++ encInt32(3, st.Istcp)
+//@   let e5 = e4 ++ encInt32(4, st.Grid)
+//@   let e6 = (st.Groupworkid != 0 ? e5 ++ encInt32(5, st.Groupworkid) : e5)
+//@   let e7 = (st.Grouprealid != 0 ? e6 ++ encInt32(6, st.Grouprealid) : e6)
+//@   let e8 = (st.SetId != "" ? e7 ++ encString(7, st.SetId) : e7)
+//@   let e9 = (st.Qos != 0 ? e8 ++ encInt32(8, st.Qos) : e8)
+//@   let e10 = (st.BakFlag != 0 ? e9 ++ encInt32(9, st.BakFlag) : e9)
+//@   let e11 = (st.Weight != 0 ? e10 ++ encInt32(11, st.Weight) : e10)
+//@   let e12 = (st.WeightType != 0 ? e11 ++ encInt32(12, st.WeightType) : e11)
+//@   let e13 = (st.AuthType != 0 ? e12 ++ encInt32(13, st.AuthType) : e12)
+//@   let pre = e13 ++ head(StructEnd, 0)
+//@   opaque head encInt8 encInt16 encInt32 encInt64 encString encBool
+//@   perreturn
+//@   modifies buf.buf.bytes
+//@   ensures [C03] result == nil && buf.buf.bytes == pre
 //@   safety [C03]
